@@ -10,6 +10,7 @@
 
 #define VIO_NET_FD 100
 #define VIO_CAN_FD 101
+#define VIO_TIMER_FD 102
 #define VIO_MAXQ 4096
 
 typedef struct { uint8_t* p; size_t n; } vio_item_t;
